@@ -9,6 +9,7 @@ CONSTANTS
   RDelims <- QRDelims
   MaxParts = 2
   MaxOps = 1
+  MaxRetry = 1
   ContentSel = {1, 6, 7, 10}
   ProfileSel = {1, 3}
   UseJson = TRUE
@@ -24,6 +25,7 @@ CONSTANTS
 INVARIANT ParseOfEncodeIsForm
 INVARIANT LimitsExactAtThreshold
 INVARIANT ContentExact
+INVARIANT SizeFailureSticks
 INVARIANT CorruptionIsErrorOrWellDefined
 PROPERTY MCBufferLimitExact
 PROPERTY MCProgress
